@@ -190,6 +190,107 @@ def rigs(rnd, tier):
     return out
 
 
+def limiter_suite(rnd, N, findings):
+    """hmclab's own interrupter: EvaluationLimiter-wrapped targets, the counter vs the model and two consecutive runs on one object"""
+    _, S, MM, D = _hm()
+    from hmclab.Distributions import EvaluationLimiter_ClassConstructor
+    from hmclab.Samples import Samples
+
+    sl = Suite("C08.limiter", "targets wrapped by EvaluationLimiter_ClassConstructor (random limit, gradient_count): (a) raw call sequences of misfit/gradient: which call raises and the "
+               "counter afterwards vs the model limRun; (b) HMC/RWMH runs that the limiter interrupts, twice in a row on the same sampler and target objects: both return "
+               "normally with closed readable files whose columns are the leading columns of the unlimited run with the same seed; non-trivial = run interrupted in a gradient call")
+    reqs, metas = [], []
+    for ci in range(N):
+        limit = rnd.choice([0, 1, 3, 7, 12, 25, 60])
+        gcount = rnd.choice([1, 1, 2, 5])
+        Lim = EvaluationLimiter_ClassConstructor(D.Normal, limit, gradient_count=gcount)
+        with quiet():
+            obj = Lim(np.zeros((2, 1)), 1.0)
+        calls = [rnd.choice([0, 0, 1]) for _ in range(rnd.choice([5, 20, 40, 90]))]
+        seen = []
+        x = np.array([[0.3], [-0.2]])
+        for c in calls:
+            try:
+                (obj.misfit if c == 0 else obj.gradient)(x.copy())
+                seen.append((int(obj.evaluations), False))
+            except KeyboardInterrupt:
+                seen.append((int(obj.evaluations), True))
+        stim = {"limit": limit, "gradient_count": gcount, "calls": "".join("mg"[c] for c in calls)}
+        sl.case(stim, nontrivial=any(r for _, r in seen), sample=dict(stim, raised_at=[i for i, (_, r) in enumerate(seen) if r][:5]) if len(sl.samples) < 2 else None)
+        sl.count("raw call sequence")
+        reqs.append(f"c08.limiter {limit} {gcount} {len(calls)} {' '.join(map(str, calls))}".rstrip())
+        metas.append((stim, seen))
+    for (stim, seen), ans in zip(metas, lean_batch(reqs)):
+        want = [(int(t.split(":")[0]), t.split(":")[1] == "1") for t in ans[3:].split()]
+        if want != seen:
+            k = next((i for i, (a, b) in enumerate(zip(want, seen)) if a != b), min(len(want), len(seen)))
+            sl.disagree(stim, want[k:k + 3], seen[k:k + 3], f"limiter differs from the model at call {k}")
+    # (b) two interrupted runs in a row
+    with scratch() as tmp:
+        for ci in range(max(6, N // 3)):
+            kind = rnd.choice(["HMC", "HMC", "RWMH"])
+            limit = rnd.choice([4, 9, 17, 30, 55])
+            gcount = rnd.choice([1, 1, 3])
+            d = rnd.choice([1, 2, 3])
+            seed = rnd.randrange(1 << 30)
+            P = 40
+            kw = dict(stepsize=0.3, disable_progressbar=True, overwrite_existing_file=True)
+            if kind == "HMC":
+                kw.update(amount_of_steps=rnd.choice([1, 2, 4]), integrator=rnd.choice(["lf", "3s", "4s"]))
+            mu = np.zeros((d, 1))
+            q0 = np.ones((d, 1)) * 0.1
+            stim = {"sampler": kind, "limit": limit, "gradient_count": gcount, "d": d, "seed": seed, "kwargs": {k: v for k, v in kw.items() if k in ("amount_of_steps", "integrator")}}
+            try:
+                with quiet(), np.errstate(all="ignore"):
+                    ref_fn = os.path.join(tmp, f"l{ci}_ref.h5")
+                    getattr(S, kind)(seed=seed).sample(ref_fn, D.Normal(mu.copy(), 1.0), initial_model=q0.copy(), proposals=P, **kw)
+                    with Samples(ref_fn) as f:
+                        ref = np.array(f.numpy, dtype=float)
+                    Lim = EvaluationLimiter_ClassConstructor(D.Normal, limit, gradient_count=gcount)
+                    target = Lim(mu.copy(), 1.0)
+                    cols = []
+                    outcome = []
+                    for r in range(2):
+                        s = getattr(S, kind)(seed=seed)
+                        fn = os.path.join(tmp, f"l{ci}_{r}.h5")
+                        try:
+                            s.sample(fn, target, initial_model=q0.copy(), proposals=P, **kw)
+                            outcome.append("returned")
+                        except KeyboardInterrupt:
+                            outcome.append("KeyboardInterrupt escaped from sample()")
+                            try:
+                                s.samples.close()
+                            except Exception:
+                                pass
+                        try:
+                            with Samples(fn) as f:
+                                cols.append(np.array(f.numpy, dtype=float))
+                        except ValueError:
+                            cols.append(np.zeros((d + 1, 0)))
+            except Exception as e:
+                sl.case(stim, nontrivial=False)
+                findings.append(Finding("C08", f"run with an EvaluationLimiter target failed: {e!r}", {"kind": "limiter", "problem": "raised"}, {"oracle": "limiter", "stimulus": stim, "error": repr(e)}))
+                continue
+            sl.case(stim, nontrivial=(kind == "HMC"))
+            sl.count(f"two runs in a row, sampler={kind}")
+            problems = []
+            for r in range(2):
+                if outcome[r] != "returned":
+                    problems.append(f"run {r + 1} on the same target object: {outcome[r]}")
+                elif cols[r].shape[1] >= P:
+                    sl.count("budget not exhausted")
+                elif not np.array_equal(cols[r], ref[:, : cols[r].shape[1]], equal_nan=True):
+                    problems.append(f"run {r + 1}: stored columns are not the leading columns of the unlimited run with the same seed")
+            # (a run that ends within its budget leaves the counter running: only an interrupt hands the next run a fresh budget)
+            if not problems and cols[0].shape[1] < P and cols[0].shape != cols[1].shape:
+                problems.append(f"the second run on the same target stored {cols[1].shape[1]} columns, the first {cols[0].shape[1]} (same seed, same budget)")
+            if problems:
+                sl.disagree(stim, "two equal interrupted runs", problems, problems[0])
+                findings.append(Finding("C08", "EvaluationLimiter target: " + problems[0], {"kind": "limiter", "problem": problems[0].split(":")[0][:30]},
+                                        {"oracle": "limiter", "stimulus": stim, "problems": problems}))
+    return sl
+
+
 def run(tier, seed):
     rnd = random.Random(48271 * seed + 8)
     thorough = tier == "thorough"
@@ -318,7 +419,8 @@ def run(tier, seed):
             suite.disagree(stim, {"columns": mcols, "returns": ret == "1"}, {"columns": ncols, "returns": returned, "problems": problems[:2]},
                            "outcome differs from the model")
     st.exhaustive = True
-    return [st, sto], findings
+    sl = limiter_suite(rnd, 60 if thorough else 18, findings)
+    return [st, sto, sl], findings
 
 
 def search(tier, seed, broken):
